@@ -13,6 +13,7 @@ counted guard arguments / locals, frames through operator new or through a count
 (with_allocator), promises resolved on the same or on a fresh thread, join() on a controlled thread.
 """
 import os
+import re
 
 import vlib
 from framework import graph_replay
@@ -20,6 +21,9 @@ from vlib import MachineryError
 
 ROOTS = ["detach", "start", "startp", "claimed", "join", "fctor", "retfut", "poolrun"]
 KINDS = ["co", "da", "dd", "st", "fc", "rf", "pa", "pd"]
+# only for reference coroutines: the result collected through a VALUE future
+VROOTS = ["vfctor", "vshift", "vretfn"]
+ALLKINDS = KINDS + ["vf"]
 DRIVER = ["Setup", "Create", "RootStart", "DropObj", "Resolve", "Finish"]
 INTERNAL = ["BodyBegin", "AwaitExt", "SpawnCreate", "Launch", "StartReturn", "AwaitLoc", "Observe", "QueuedResume",
             "BodyEnd", "FinalResolve", "FinalDestroy", "FinalTransfer", "Flush", "IqExit", "JoinStep", "RootSubscribe"]
@@ -98,6 +102,7 @@ def families(quick):
                         ps.append(mk("int", r, [[(m1, 2), (m2, 3), RET], l2, l3]))
     fam["siblings"] = ps
     fam["payload"] = payload_family(quick)
+    fam["ref"] = ref_family(quick)
     if not quick:
         # depth 2 with every pair of in-coroutine start modes
         ps = []
@@ -143,6 +148,25 @@ def payload_family(quick):
     return ps
 
 
+def ref_family(quick):
+    """reference results (async<Tracked &>, the referenced objects outlive the coroutines): every delivery form,
+    including the value-future conversions a reference coroutine allows"""
+    ps = []
+    pres = ([], [("aw", 1)])
+    for r in ROOTS + VROOTS:
+        for pre in pres:
+            ps.append(mk("ref", r, [pre + [RET]]))
+    for r in (("start",) if quick else ("start", "detach", "join", "vfctor")):
+        for m in ALLKINDS:
+            for pre in pres:
+                ps.append(mk("ref", r, [[(m, 2), RET], pre + [RET]]))
+    for r in ("start", "join", "vretfn"):
+        for pre in pres:
+            ps.append(mk("ref", r, [[("co", 2), RET], [("vf", 3), RET], pre + [RET]]))
+        ps.append(mk("ref", r, [[("vf", 2), RET], [("aw", 1), THR]]))
+    return ps
+
+
 def alloc_family():
     """the SMALL subset used by alloc_replay (C20)"""
     ps = []
@@ -165,7 +189,7 @@ def make_proj(ps, alloc=False):
         kind = {}
         for b in p["body"]:
             for (k, a) in b:
-                if k in KINDS:
+                if k in ALLKINDS:
                     kind[a] = k
         started_by.append(kind)
 
@@ -214,6 +238,7 @@ def make_proj(ps, alloc=False):
             "ext": [e["st"] for e in st["ext"]],
             "live": live,
             "pay": {"copies": st["pc"], "dbl": 0, "live": st["pl"]},
+            "rm": st["rm"],
             "ret": st["ret"],
         }
         if alloc:
@@ -228,11 +253,11 @@ def must_take(ps):
     roots = {p["root"] for p in ps}
     need = {
         "AwaitExt": "aw" in used,
-        "SpawnCreate": bool(used & (set(KINDS) - {"rf"})),
-        "Launch": bool(used & set(KINDS)),
-        "StartReturn": bool(used & {"st", "fc", "rf"}),
-        "AwaitLoc": bool(used & {"st", "fc", "rf", "pa", "pd"}),
-        "Observe": bool(used & {"co", "st", "fc", "rf", "pa", "pd"}),
+        "SpawnCreate": bool(used & (set(ALLKINDS) - {"rf"})),
+        "Launch": bool(used & set(ALLKINDS)),
+        "StartReturn": bool(used & {"st", "fc", "rf", "vf"}),
+        "AwaitLoc": bool(used & {"st", "fc", "rf", "pa", "pd", "vf"}),
+        "Observe": bool(used & {"co", "st", "fc", "rf", "pa", "pd", "vf"}),
         "QueuedResume": "da" in used,
         "Flush": bool(used & {"da", "dd", "pa", "pd"}),
         "JoinStep": "join" in roots,
@@ -249,6 +274,55 @@ def check_deterministic(g, tag):
         if len(real) > 1 and any(l.split("(")[0] in internal for (l, d) in real):
             raise MachineryError("Async/%s: state with an internal action and %d successors: %s" % (
                 tag, len(real), [l for (l, d) in real]))
+
+
+def probe_join_ref(ctx, rp):
+    """what async<T &>::join() hands out (constant JoinRef of the specification follows the code)"""
+    rc, out = vlib.run_cmd([rp, "--probe-join-ref"], timeout=60)
+    m = re.search(r"^JOINREF (\w+)", out, re.M)
+    if rc != 0 or not m or m.group(1) == "unknown":
+        raise MachineryError("cannot classify what async<T&>::join() returns: " + out[-500:])
+    how = m.group(1)
+    ctx.extra["join_of_reference_coroutine"] = how
+    if how == "moves":
+        ctx.extra["candidate_defect"] = (
+            "async<T&>::join() (async.h:125-131: `auto join()` + `return std::move(future<T>(*this).join())`) returns a "
+            "value MOVE-constructed from the object the coroutine referred to: the referenced object, which outlives the "
+            "coroutine and belongs to somebody else, is left moved-from (program ref|join|0|ret0: Create, RootStart -> "
+            "rm=[true]); co_await, start()+wait(), future<T&> and the value-future conversions all hand out the object "
+            "itself.  Modelled as-is (JoinRef = \"moves\"); a join() returning T& (decltype(auto), no std::move for "
+            "references) would be JoinRef = \"ref\".")
+        ctx.assume("async<T&>::join() moves out of the referenced object at the checked revision (recorded as "
+                   "candidate_defect in the evidence, not reported as a violation of C04's text)")
+    return how
+
+
+def race_replay(ctx, rp):
+    """spec/Async/AsyncJoin.tla: a blocking delivery form (async::join(), start() + future::wait() / join() /
+    sync()+value()) against a coroutine that completes on ANOTHER thread, all interleavings of the joiner's
+    {readiness check, subscription CAS, wait} with the finisher's {resolving exchange, flag store, notify}, replayed on
+    two vsched-managed threads that yield exactly at those operations (result types int, tracked, void)."""
+    def proj(st):
+        done = st["jpc"] == "done"
+        return {"j": st["jpc"], "f": st["fpc"], "slot": "gone" if done else st["slot"],
+                "got": {"cp": 0, "mf": False, "st": "val" if done else "none",
+                        "v": 1 if done and st["ty"] != "void" else 0},
+                "end": 1, "ad": st["freed"]}
+
+    def hdr(k, st0):
+        return {"race": True, "form": st0["form"], "T": st0["ty"]}
+    graph_replay(ctx, "Async", "AsyncJoin", "AsyncJoin.cfg", "race", rp, proj, header_fn=hdr,
+                 must_take=["JCheck", "JCas", "JWait", "FXchg", "FStore", "FNotify"], extra_random=60,
+                 tlc_kw={"workers": 2})
+    # the model is able to tell: with the result of subscribe() ignored TLC must find the joiner blocked for ever
+    res = ctx.tlc("Async", "AsyncJoin", os.path.join(vlib.VERIF, "spec/Async/AsyncJoin_unchecked.cfg"), "race_unchecked",
+                  workers=2)
+    if not res.deadlock:
+        raise MachineryError("AsyncJoin with CheckedSubscribe = FALSE does not deadlock: the model is vacuous")
+    res.model["expected"] = "deadlock (negative control: subscription result ignored)"
+    ctx.assume("blocking delivery vs completion on another thread: two threads, scheduling points are the atomic operations "
+               "on the bound future's slot and on the sync_awaiter's flag (the value store before the exchange and the frame "
+               "destruction after the wake-up are thread-local steps); sequentially consistent interleavings (C03 covers orders)")
 
 
 def alloc_replay(ctx):
@@ -269,8 +343,7 @@ def alloc_replay(ctx):
     def hdr(k, st0):
         return {"alloc": "count" if k % 2 else "new", "other": False, "obs": "alloc"}
     graph_replay(ctx, "Async", "Async", "Async_base.cfg", "alloc", rp, make_proj(ps, alloc=True), header_fn=hdr,
-                 merge_re=MERGE_RE, must_take=must_take(ps), defs={"Programs": tla_programs(ps)},
-                 tlc_kw={"workers": TLC_WORKERS})
+                 merge_re=MERGE_RE, must_take=must_take(ps), defs={"Programs": tla_programs(ps), "JoinRef": '"%s"' % probe_join_ref(ctx, rp)}, tlc_kw={"workers": TLC_WORKERS})
     ctx.assume("async: the library's own allocations are the global operator new calls inside the native driver's calls "
                "(create / start / join / resolve / drop) minus one per coroutine frame not placed by the counting storage and "
                "minus one per payload constructed from its id; exceptions are allocated by the C++ runtime with malloc and "
@@ -281,6 +354,7 @@ def run(ctx):
     rp = vlib.compile_harness(os.path.join(vlib.VERIF, "harness/async_replay.cpp"), "async_replay",
                               sanitize=not ctx.quick)
     fams = families(ctx.quick)
+    join_ref = probe_join_ref(ctx, rp)
     ctx.extra["programs"] = sum(len(v) for v in fams.values())
     ctx.extra["program_families"] = {k: len(v) for k, v in fams.items()}
     for tag, ps in fams.items():
@@ -291,10 +365,12 @@ def run(ctx):
             return {"alloc": "count" if k % 2 else "new", "other": (k // 2) % 2 == 1}
         must = must_take(ps)
         res, g = graph_replay(ctx, "Async", "Async", "Async_base.cfg", tag, rp, make_proj(ps), header_fn=hdr,
-                              merge_re=MERGE_RE, must_take=must, defs={"Programs": tla_programs(ps)},
+                              merge_re=MERGE_RE, must_take=must, defs={"Programs": tla_programs(ps), "JoinRef": '"%s"' % join_ref},
                               extra_random=100 if ctx.quick else 1000, tlc_kw={"workers": TLC_WORKERS})
         if g is not None:
             check_deterministic(g, tag)
+    if len(ctx.violations) < 3:
+        race_replay(ctx, rp)
     if len(ctx.violations) < 3:
         alloc_replay(ctx)
     # the hand-runnable instance (spec/Async/Async_small.tla) stays checked as well
